@@ -222,7 +222,7 @@ class InstObj:
 
 def same_value(a, b):
     if isinstance(a, Sym) or isinstance(b, Sym):
-        return isinstance(a, Sym) and isinstance(b, Sym) and a == b
+        return a is b
     if isinstance(a, tuple) and isinstance(b, tuple):
         return len(a) == len(b) and all(same_value(x, y)
                                         for x, y in zip(a, b))
@@ -312,6 +312,11 @@ class Policy:
         dynamic condition, None to leave it dynamic."""
         return None
 
+    def choose_key(self, interp, table_ref, obj, keyterm, state):
+        """Specialise a dispatch-table lookup with a run-time key to one
+        constant key (rules analyse one table entry at a time)."""
+        return None
+
     max_unroll = 64
     max_depth = 40
 
@@ -376,6 +381,7 @@ class Interp:
         self.next_id = itertools.count(1)
         self.static_store = {}
         self.static_cache = {}
+        self.static_names = {}
         self.evaluating = set()
         self.stack = []  # [(FuncInfo, site)]
         self.pending = []  # raise outcomes produced while evaluating exprs
@@ -384,8 +390,11 @@ class Interp:
         self.notes = []
         self.loops = []  # loop summaries (for C08)
         self.fresh = itertools.count(1)
-        self.dynamic_globals = self._find_dynamic_globals()
-        self.rec_summaries = {}  # qualname -> value builder
+        if not hasattr(prog, '_dynamic_globals'):
+            prog._dynamic_globals = self._find_dynamic_globals()
+        self.dynamic_globals = prog._dynamic_globals
+        self.rec_assume = {}  # qualname -> summary (None = bottom)
+        self.rec_hits = set()
         self.cur_module = None
         self.cur_func = None
         from . import models
@@ -484,6 +493,9 @@ class Interp:
         finally:
             self.evaluating.discard(key)
         self.static_cache[key] = v
+        if isinstance(v, Ref):
+            self.static_names.setdefault(v.id, mi.name[len('pamqp.'):] + '.'
+                                         + name)
         return v
 
     def binding_value(self, bl, scope, mi):
@@ -722,15 +734,23 @@ class Interp:
         return j.value
 
     def recursive_call(self, fi, args, kwargs, state, node):
+        """A call that re-enters a function already being inlined: use the
+        function's inductive summary (fixpoint computed by codec.py)."""
         self.calls.append((fi.short + ' [recursive]', self.chain()))
-        builder = self.rec_summaries.get(fi.qualname)
-        if builder is not None:
-            value, raises = builder(self, fi, args, kwargs, state)
-            for et, why in raises:
-                self.raise_pending(state, et, node, why)
-            return value
-        self.note('recursion cut at %s' % fi.short)
-        return Sym('reccall', fi.short, tuple(args))
+        self.rec_hits.add(fi.qualname)
+        if fi.qualname in self.rec_assume:
+            summ = self.rec_assume[fi.qualname]
+        else:
+            from . import codec
+            summ = codec.rec_summary(self.prog, fi, self.policy)
+        if summ is None:
+            # bottom: no terminating recursive activation known yet
+            state.kn.assume(False)
+            raise _NoReturn()
+        value, raises = summ.instantiate(self, fi, args, kwargs, state)
+        for et, why in raises:
+            self.raise_pending(state, et, node, why)
+        return value
 
     def join_outcomes(self, outs, depth):
         if len(outs) == 1:
@@ -1092,6 +1112,10 @@ class Interp:
             return True
         if isinstance(v, tuple):
             return len(v) > 0
+        if isinstance(v, Sym) and v.op == 'cond' and (
+                isinstance(v.args[1], Ref) or isinstance(v.args[2], Ref)):
+            return T.cond(v.args[0], self.truth(v.args[1], state, node),
+                          self.truth(v.args[2], state, node))
         return T.truthy(v)
 
     def st_While(self, st, state, frame):
@@ -1235,6 +1259,7 @@ class Interp:
         pend0 = list(self.pending)
         eff0, calls0, loops0 = len(self.effects), len(self.calls), \
             len(self.loops)
+        notes0 = len(self.notes)
         store_before = dict(probe.store)
         pinfo = self._loop_body_once(st, probe, frame, iterable, loop_id)
         mutated = set()
@@ -1249,7 +1274,7 @@ class Interp:
         del self.loops[loops0:]
         # monotone integer variables: every assignment in the body is
         # v += e / v = v + e with e >= 0 in the probe pass
-        incs = _increment_exprs(st.body)
+        mono = pinfo['nonneg_incs']
         # pass 2: havoc with inferred facts, run once for real
         hstate = state
         for k in assigned:
@@ -1258,7 +1283,7 @@ class Interp:
             t = T.typeof(p) if p is not ABSENT else None
             if t is not None and t <= {'int', 'bool'}:
                 iv = None
-                if k in incs and incs[k] is not None:
+                if mono.get(k):
                     lo = T.interval(p, state.kn)[0]
                     if lo is not None:
                         iv = (lo, None)
@@ -1277,14 +1302,6 @@ class Interp:
         entry = hstate.fork()
         info = self._loop_body_once(st, hstate.fork(), frame, iterable,
                                     loop_id, outs, entry)
-        # verify monotonicity claims made above using the real pass
-        for k, delta_ok in info['nonneg_incs'].items():
-            if not delta_ok and k in assigned:
-                v = hstate.env.get(k)
-                if isinstance(v, Sym) and v.op == 'typed' and v.args[2]:
-                    raise AnalysisError(
-                        'loop variable %s assumed monotone but its increment '
-                        'is not provably >= 0 (%s)' % (k, self.site(st)))
         # exit state
         finals = []
         if isinstance(st, ast.While):
@@ -1533,6 +1550,9 @@ class Interp:
             return self.global_value(frame.module, name, node)
         if name in state.env:
             v = state.env[name]
+            if isinstance(v, (Sym, tuple)) and state.kn.known:
+                v2 = T.simplify(v, state.kn)
+                v = v2
             if v is ABSENT:
                 self.raise_pending(state, Ext('builtins.NameError'), node,
                                    'unbound local ' + name)
